@@ -348,6 +348,12 @@ def load_known():
 
 
 def finish(ctx, meta, t0):
+    inl = {rel: m.inlined for rel, m in ctx.repo.modules.items() if getattr(m, 'inlined', None)}
+    if inl:
+        ctx.notes['new helpers / constants inlined before analysis'] = inl
+    nf = {rel: [list(x) for x in m.inline_failed][:8] for rel, m in ctx.repo.modules.items() if getattr(m, 'inline_failed', None)}
+    if nf:
+        ctx.notes['new helpers that could not be inlined (left as calls)'] = nf
     prop = ctx.prop
     known = load_known()
     kf = {}
